@@ -162,3 +162,67 @@ def shard_iter(it, k: int, n: int, acc):
             acc.capped_at = idx
             return
         yield case
+
+
+# ---------------------------------------------------------------------- families shared by every SCHED check
+
+
+def cross_families(tier: str):
+    """Feature crossings that every SCHED property is checked on, whoever "owns" the feature (lesson of the seeded
+    changes: a bug in the handling of X shows up as a violation of the property about Y):
+    constant flags x sequential x resources; early completions next to main-thread nodes; max_concurrency reconfigured
+    after the build; several flags on parts of one result with every subset falsy; selections."""
+    q = tier == "quick"
+    # (a) constant activation flags x sequential x resources
+    for n in (2, 3):
+        for es in shapes(n):
+            for cf in cflag_variants(n)[1:n + 1]:
+                i = next(iter(cf))
+                for seq in ((False,) * n, tuple(j == i for j in range(n)), tuple(j != i for j in range(n))):
+                    for res in ("t" * n, "a" * n, ("mt" * n)[:n], ("am" * n)[:n]):
+                        for mc in (1, 2, 3):
+                            yield dict(n=n, es=es, cflag=cf, seq=seq, res=res, mc=mc, prio=tuple(5 if j == i else 0 for j in range(n)),
+                                       is_async=(mc == 3), ties=0 if q else 1)
+    # (b) early completions (visible to code that polls future.done()) next to inline main-thread nodes
+    for n in (3, 4):
+        for es in shapes(n):
+            if len(es) > (1 if n == 4 else 2):
+                continue
+            for res in [r for r in all_res(n) if r.count("m") == 1 and (n == 3 or r.count("a") <= 1)]:
+                for seq in (seq_menu(n)[:1] + (seq_menu(n)[1:n + 1] if n == 3 else [])):
+                    for mc in (2, 3):
+                        yield dict(n=n, es=es, seq=seq, res=res, mc=mc, prio=(0,) * n, is_async=False, ties=0, early=1)
+    # (c) max_concurrency reconfigured after the build
+    for n in (3, 4):
+        for es in shapes(n):
+            if len(es) > 1:
+                continue
+            for res in ("t" * n, ("ta" * n)[:n]):
+                for build_mc, mc in ((3, 1), (4, 2), (1, 3)):
+                    yield dict(n=n, es=es, res=res, mc=mc, reconf={"build_mc": build_mc, "mc": mc, "via": "dict"}, seq=(False,) * n,
+                               is_async=False, ties=0)
+    # (d) several flags taken from parts of one result, every subset of them falsy
+    for n in (3, 4):
+        for es in shapes(n):
+            fan = [e for e in es if e[0] == 0]
+            if len(fan) < 2 or len(es) > len(fan) + 1:
+                continue
+            paths = [(), ("k", 1), (0,), ("k",)]
+            es4 = [(i, j, "flag", paths[k % 4]) if (i, j) in fan else (i, j, "pos", ()) for k, (i, j) in enumerate(es)]
+            for falsy in flag_falsy_variants(es4):
+                for res in ("t" * n, ("at" * n)[:n]):
+                    for mc in (1, 2):
+                        yield dict(n=n, es=es4, falsy=falsy, res=res, mc=mc, is_async=False, ties=0)
+
+
+def foreign_quick_cases(own: str):
+    """thorough tier: the quick families of all OTHER SCHED checks, run under this check's monitor."""
+    import importlib
+    for name in ("c02", "c03", "c04", "c05", "c06", "c08", "c09", "c14"):
+        if name == own:
+            continue
+        mod = importlib.import_module(f"twzmc.checks.{name}")
+        for c in mod.cases("quick"):
+            if c.get("special") or "n" not in c:
+                continue
+            yield c
